@@ -240,3 +240,99 @@ def python_bool_inverted(module, fn, call_is_bool=None):
         if isinstance(n, ast.UnaryOp) and isinstance(n.op, ast.Invert) and isinstance(n.operand, ast.Name) and n.operand.id in flags_:
             found.append((n, n.operand.id))
     return found, len(flags_)
+
+
+# ------------------------------------------------------------------------------------------------ positions as truth values
+_POS_METHODS = ("index", "find", "rfind")
+_POS_NUMPY = ("argmax", "argmin", "nanargmax", "nanargmin", "searchsorted")
+
+
+def is_position_expr(e):
+    """an expression whose value is a position (0 = the first one): seq.index(x), s.find(x), np.argmax(a), a.argmax()"""
+    if isinstance(e, ast.Call) and isinstance(e.func, ast.Attribute):
+        if e.func.attr in _POS_METHODS and len(e.args) >= 1:
+            return True
+        if e.func.attr in _POS_NUMPY:
+            return True
+    return False
+
+
+def returns_position(fn):
+    """every `return` of fn gives a position or None, and at least one gives a position"""
+    rets = [r.value for r in ast.walk(fn) if isinstance(r, ast.Return)]
+    nested = {id(x) for n in ast.walk(fn) if isinstance(n, (ast.FunctionDef, ast.Lambda)) and n is not fn for x in ast.walk(n)}
+    rets = [r for r in rets if id(r) not in nested]
+    if not rets:
+        return False
+    pos = 0
+    for r in rets:
+        if r is None or (isinstance(r, ast.Constant) and r.value is None):
+            continue
+        if is_position_expr(r):
+            pos += 1
+            continue
+        if isinstance(r, ast.Name):
+            # a local holding a position: every assignment to it is a position expression
+            asg = [a.value for a in ast.walk(fn) if isinstance(a, ast.Assign) and any(isinstance(t, ast.Name) and t.id == r.id for t in a.targets)]
+            if asg and all(is_position_expr(a) or (isinstance(a, ast.Constant) and a.value is None) for a in asg) and any(is_position_expr(a) for a in asg):
+                pos += 1
+                continue
+        return False
+    return pos > 0
+
+
+def positions_as_truth(module, fn, call_gives_position):
+    """-> ([(use node, description)], examined): a position (of a found element: 0 is the first one, "not found" is None / an exception)
+    used as a truth value -- `if pos:`, `pos and ...`, `not pos`, `x if pos else y`, `if (pos := f()):`"""
+    found, examined = [], 0
+    nested = {id(x) for n in ast.walk(fn) if isinstance(n, (ast.FunctionDef, ast.Lambda)) and n is not fn for x in ast.walk(n)}
+
+    def gives(e):
+        if isinstance(e, ast.NamedExpr):
+            return gives(e.value)
+        return is_position_expr(e) or (isinstance(e, ast.Call) and call_gives_position(e))
+
+    holders = {}
+    for a in ast.walk(fn):
+        if id(a) in nested:
+            continue
+        if isinstance(a, ast.Assign) and len(a.targets) == 1 and isinstance(a.targets[0], ast.Name):
+            holders.setdefault(a.targets[0].id, []).append(a.value)
+        elif isinstance(a, ast.NamedExpr) and isinstance(a.target, ast.Name):
+            holders.setdefault(a.target.id, []).append(a.value)
+        elif isinstance(a, (ast.AugAssign, ast.For)) and isinstance(getattr(a, "target", None), ast.Name):
+            holders.setdefault(a.target.id, []).append(None)
+    pos_names = {n for n, vals in holders.items() if vals and all(v is not None and (gives(v) or (isinstance(v, ast.Constant) and v.value is None)) for v in vals)
+                 and any(v is not None and gives(v) for v in vals)}
+
+    def truth_operands(n):
+        if isinstance(n, (ast.If, ast.While, ast.IfExp)):
+            yield n.test
+        elif isinstance(n, ast.BoolOp):
+            for v in n.values[:-1]:
+                yield v
+            par = module.parents.get(n)
+            if isinstance(par, (ast.If, ast.While, ast.IfExp)) and par.test is n:
+                yield n.values[-1]
+        elif isinstance(n, ast.UnaryOp) and isinstance(n.op, ast.Not):
+            yield n.operand
+        elif isinstance(n, ast.comprehension):
+            for c in n.ifs:
+                yield c
+
+    for n in ast.walk(fn):
+        if id(n) in nested:
+            continue
+        for t in truth_operands(n):
+            while isinstance(t, ast.UnaryOp) and isinstance(t.op, ast.Not):
+                t = t.operand
+            if isinstance(t, ast.BoolOp):
+                continue  # its operands are visited on their own
+            if isinstance(t, ast.Name) and t.id in pos_names:
+                examined += 1
+                found.append((t, t.id))
+            elif gives(t):
+                examined += 1
+                found.append((t, "the result of " + " ".join(ast.unparse(t).split())[:50]))
+    examined += len(pos_names)
+    return found, examined
